@@ -1,3 +1,5 @@
+import os
+from .. import core
 from ..chanprop import ChanSpec
 from .c01 import C01
 
@@ -10,11 +12,33 @@ class C18(ChanSpec):
                   "the queue-full error arises only in a state whose queue is full; in non-blocking mode a write at its enqueue point always has an enabled step (accept or queue-full); in "
                   "blocking mode the enqueue is enabled exactly when there is room, and giving up on a done caller context or a closed channel leaves accepted/wire unchanged. Tie: scenarios "
                   "with slow/stalled senders, pre-cancelled and concurrently cancelled caller contexts and Close arriving while writers wait; the controller reports at every decision which "
-                  "goroutines are parked-and-disabled, and the monitor flags a writer parked on the queue in non-blocking mode.")
+                  "goroutines are parked-and-disabled, and the monitor flags a writer parked on the queue in non-blocking mode; the streaming entry point (ReadFrom, 1-6 chunks, 1-3 free slots, sender stalled) is run "
+                  "sequentially against readFromNoSpace with a watchdog for calls that do not return.")
     level_note = C01.level_note + " The error value returned on the closed branch when the close error is nil is C11's subject."
     rule = C01.rule.replace("sync or async", "async only") + "; plus canceller goroutines (context.CancelFunc) and closers; contexts: live / already done / cancelled concurrently"
     assumptions = ("caller contexts are cancelled only through the scenario's canceller goroutines",)
     modelled_not_verified = C01.modelled_not_verified + ("context.Context cancellation (Done channel closed after cancel)",)
+    gen_targets = ()
+
+    def harness(self, seed, count, tier):
+        lines = ChanSpec.harness(self, seed, count, tier)
+        # the streaming entry point (ReadFrom) on a non-blocking channel with a stalled sender, sequentially
+        rc, so, se = core.run([os.path.join(core.BIN, "nvh"), "-prop", "C18", "-seed", str(seed), "-count", str(300 if tier == "quick" else 20000)], timeout=1800)
+        lines += [l for l in so.split("\n") if l]
+        if rc != 0:
+            lines.append("C18 crash harness-exit-%d" % rc)
+        return lines
+
+    def nontrivial(self, line, answer):
+        if line.split()[1] == "rf":
+            return "refused" in answer
+        return ChanSpec.nontrivial(self, line, answer)
+
+    def extra_coverage(self, pairs):
+        d = ChanSpec.extra_coverage(self, [(l, a) for l, a in pairs if l.split()[1] != "rf"])
+        rf = [a for l, a in pairs if l.split()[1] == "rf"]
+        d["input_distribution"]["readfrom_nonblocking"] = dict(calls=len(rf), refused=sum(1 for a in rf if "refused" in a))
+        return d
 
 
 SPEC = C18()
